@@ -1,7 +1,7 @@
 #!/bin/bash
 # Runs every registered quick check sequentially on the current tree and reports exit codes.
 cd /verif
-for p in C02 C05 C06 C07 C09 C12 C13 C16 C23 C28 C30 C31 C32 C33; do
+for p in C02 C05 C06 C07 C09 C12 C13 C16 C23 C28 C29 C30 C31 C32 C33; do
   s=$(date +%s)
   VERIF_TIER=${1:-quick} ./check $p > build/regen_$p.log 2>&1
   echo "$p rc=$? $(( $(date +%s) - s ))s"
